@@ -408,7 +408,12 @@ fn intersect_pair(a: usize, b: usize, program: &mut Program) -> usize {
     }
 }
 
-/// Filter parent type to variants where a specific field is compatible with a given type.
+/// Filter parent type to the variants whose field at `field_idx` can hold a value of the given type.
+///
+/// This runs after a runtime test on the field succeeded, so a variant stays whenever its field
+/// type *overlaps* the tested type: `A[x: 'int | 'bin]` can still be the value after `.x ='int`.
+/// (Requiring the field type to be assignable to the tested type would drop that variant, and a
+/// later match on the parent would then treat an `A` as one of the remaining variants.)
 pub fn filter_variants_by_field(
     parent_type_id: usize,
     field_idx: usize,
@@ -421,7 +426,7 @@ pub fn filter_variants_by_field(
     let mut filtered = Vec::new();
     for variant_id in variants {
         if let Some(field_type_id) = get_field_type(variant_id, field_idx, program)
-            && is_compatible(field_type_id, field_must_be_id, program)
+            && types_overlap(field_type_id, field_must_be_id, program)
         {
             filtered.push(variant_id);
         }
